@@ -569,6 +569,115 @@ theorem fixed_gextra_copy :
       = (.ok ([(700, [1, 101])], .vec [0, 100]) : Except BErr (List (Nat × List Nat) × Arg Nat)) := by
   decide
 
+/-! ### the isothermal shortcut of BinaryThermodynamics.getInterfacialComposition -/
+
+/-- the (T, GE) points a list of `_interfacialComposition` calls evaluates -/
+def pointsOf {α : Type} (calls : List (α × List α)) : List (α × α) :=
+  calls.flatMap (fun c => c.2.map (fun g => (c.1, g)))
+
+theorem zip_const {α : Type} (t0 : α) : ∀ (Ts gs : List α), (∀ t ∈ Ts, t = t0) → Ts.length = gs.length →
+    Ts.zip gs = gs.map (fun g => (t0, g))
+  | [], [], _, _ => rfl
+  | [], _ :: _, _, h => by simp at h
+  | _ :: _, [], _, h => by simp at h
+  | t :: Ts, g :: gs, ha, hl => by
+    simp only [List.zip_cons_cons, List.map_cons]
+    rw [ha t List.mem_cons_self, zip_const t0 Ts gs (fun u hu => ha u (List.mem_cons_of_mem _ hu)) (by simpa using hl)]
+
+theorem pointsOf_singletons {α : Type} (f : α → α) : ∀ (ps : List (α × α)),
+    pointsOf (ps.map (fun p => (p.1, [f p.2]))) = ps.map (fun p => (p.1, f p.2))
+  | [] => rfl
+  | q :: ps => by
+    have ih := pointsOf_singletons f ps
+    unfold pointsOf at ih ⊢
+    simp only [List.map_cons, List.flatMap_cons, List.map_nil, List.singleton_append]
+    rw [ih]
+
+section shortcut
+variable [Add α] [BEq α] [LawfulBEq α]
+
+/-- what `binaryIC` does once the arguments are broadcast to `Ts`, `gs` -/
+theorem binaryIC_unfold (ip : Bool) (off : α) (T g : Arg α) (Ts gs : List α)
+    (hp : processTG T g = .ok (Ts, gs)) (r : List (α × List α) × Arg α) (h : binaryIC ip off T g = .ok r) :
+    r.1 = match Ts with
+      | [] => []
+      | t0 :: _ => if Ts.all (fun t => t == t0) then [(t0, gs.map (· + off))]
+                   else (Ts.zip gs).map (fun p => (p.1, [p.2 + off])) := by
+  unfold processTG at hp
+  unfold binaryIC at h
+  cases hT : atleast1d T with
+  | error e => simp [hT, bind, Except.bind] at hp
+  | ok T1 =>
+    cases hg : atleast1d g with
+    | error e => simp [hT, hg, bind, Except.bind] at hp
+    | ok g1 =>
+      simp only [hT, hg, bind, Except.bind] at hp h
+      rw [hp] at h
+      simp only [pure, Except.pure] at h
+      cases Ts with
+      | nil => simp at h; rw [← h]
+      | cons t0 rest =>
+        simp only at h ⊢
+        split at h
+        · next hall => simp at h; rw [← h]; simp only [hall, if_true]
+        · next hall => simp at h; rw [← h]; simp only [hall]; rfl
+
+/-- **shortcut taken iff all temperatures are equal** (1): with one common temperature — however the
+array is written: all equal, length 1, a scalar — there is ONE call, at that temperature, with the
+whole GE array -/
+theorem binaryIC_isothermal (ip : Bool) (off : α) (T g : Arg α) (t0 : α) (rest gs : List α)
+    (hp : processTG T g = .ok (t0 :: rest, gs)) (hall : ∀ t ∈ rest, t = t0)
+    (r : List (α × List α) × Arg α) (h : binaryIC ip off T g = .ok r) :
+    r.1 = [(t0, gs.map (· + off))] := by
+  rw [binaryIC_unfold ip off T g _ gs hp r h]
+  have : (t0 :: rest).all (fun t => t == t0) = true := by
+    simp only [List.all_cons, beq_self_eq_true, Bool.true_and, List.all_eq_true]
+    intro t ht; rw [hall t ht]; exact beq_self_eq_true t0
+  simp only [this, if_true]
+
+/-- (2): as soon as ONE temperature differs from the first — wherever it sits, e.g. first = last ≠
+middle — every point is evaluated on its own, at its own temperature -/
+theorem binaryIC_nonisothermal (ip : Bool) (off : α) (T g : Arg α) (t0 : α) (rest gs : List α)
+    (hp : processTG T g = .ok (t0 :: rest, gs)) (t : α) (ht : t ∈ rest) (hne : t ≠ t0)
+    (r : List (α × List α) × Arg α) (h : binaryIC ip off T g = .ok r) :
+    r.1 = ((t0 :: rest).zip gs).map (fun p => (p.1, [p.2 + off])) := by
+  rw [binaryIC_unfold ip off T g _ gs hp r h]
+  have : ¬ ((t0 :: rest).all (fun t => t == t0) = true) := by
+    simp only [List.all_cons, beq_self_eq_true, Bool.true_and, List.all_eq_true, not_forall]
+    exact ⟨t, ht, by simpa using hne⟩
+  simp only [this, if_false]
+  rfl
+
+/-- **the shortcut equals the general path**: either way the (T, GE) points evaluated are exactly the
+broadcast pairs, each GE shifted by the offset — so a point gives the same value alone and inside
+an array, whatever the pattern of the temperature array -/
+theorem binaryIC_points (ip : Bool) (off : α) (T g : Arg α) (Ts gs : List α)
+    (hp : processTG T g = .ok (Ts, gs)) (r : List (α × List α) × Arg α) (h : binaryIC ip off T g = .ok r) :
+    pointsOf r.1 = (Ts.zip gs).map (fun p => (p.1, p.2 + off)) := by
+  have hl := processTG_lengths T g Ts gs hp
+  rw [binaryIC_unfold ip off T g Ts gs hp r h]
+  cases Ts with
+  | nil => simp [pointsOf]
+  | cons t0 rest =>
+    simp only
+    split
+    · next hall =>
+      have hall' : ∀ t ∈ t0 :: rest, t = t0 := by
+        intro t ht
+        have := List.all_eq_true.mp hall t ht
+        exact eq_of_beq this
+      rw [zip_const t0 _ gs hall' hl]
+      simp [pointsOf, List.map_map, Function.comp_def]
+    · exact pointsOf_singletons (· + off) _
+
+end shortcut
+
+/-- the temperature pattern of the seeded change: first = last ≠ middle is NOT isothermal -/
+example : (binaryIC false 1 (.vec [673, 723, 673]) (.scalar 5000)).map (·.1)
+    = (.ok [(673, [5001]), (723, [5001]), (673, [5001])] : Except BErr (List (Nat × List Nat))) := by decide
+example : (binaryIC false 1 (.vec [673, 673, 673]) (.vec [0, 100, 500])).map (·.1)
+    = (.ok [(673, [1, 101, 501])] : Except BErr (List (Nat × List Nat))) := by decide
+
 /-- non-vacuity of the broadcasting hypotheses -/
 example : processXT (.vec [1, 2]) (.vec [5, 6, 7]) false
     = (.ok ([[1, 2], [1, 2], [1, 2]], [5, 6, 7]) : Except BErr (List (List Nat) × List Nat)) := by decide
@@ -1377,6 +1486,70 @@ theorem removeCache_df (cfg : Cfg) (m : DFMethod) (s : St Ph C β σ τ π κ) (
   · exact removeCache_dfSampling E s x T p v h
   · exact removeCache_dfEqBased E cfg true s x T p v h
   · exact removeCache_dfEqBased E cfg false s x T p v h
+
+/-! ### which precipitate entry each branch of the tangent method leaves behind -/
+
+theorem getSamples_dfCache (s : St Ph C β σ τ π κ) (p : Ph) (T : τ) :
+    (getSamples E s p T).2.dfCache = s.dfCache := by
+  unfold getSamples
+  split
+  · split <;> rfl
+  · rfl
+
+theorem dfSampling_keeps_empty (s : St Ph C β σ τ π κ) (x : χ) (T : τ) (p : Ph) (rm : Bool)
+    (h : s.dfCache p = none) : (dfSampling E s x T p rm).2.dfCache p = none := by
+  have h1 : (sampleDF E (matrixEq E s x T).2 p T (matrixEq E s x T).1.out).2.dfCache p = none := by
+    show (getSamples E (matrixEq E s x T).2 p T).2.dfCache p = none
+    rw [getSamples_dfCache]; exact h
+  unfold dfSampling
+  dsimp only
+  split
+  · unfold resetDF
+    split
+    · simp [upd]
+    · exact h1
+  · exact h
+
+/-- **collapsed branch** (the precipitate found by the parallel tangent is the matrix composition,
+Thermodynamics.py 896-899): the precipitate entry is EMPTY afterwards — the collapsed composition set
+is not kept as the starting point of later queries — whatever `removeCache` is -/
+theorem tangent_collapsed_leaves_empty (s : St Ph C β σ τ π κ) (r : Res ρ β σ) (x : χ) (T : τ) (p : Ph) (rm : Bool)
+    (hv : E.valid (localEq E (ensurePrecSet E s p T r.out) (E.condMu T r.out p)
+      ((ensurePrecSet E s p T r.out).dfCache p)).1.out = true)
+    (hd : E.degenerate (localEq E (ensurePrecSet E s p T r.out) (E.condMu T r.out p)
+      ((ensurePrecSet E s p T r.out).dfCache p)).1.sets r.sets = true) :
+    (dfTangentTail E s r x T p rm).2.dfCache p = none := by
+  unfold dfTangentTail
+  dsimp only
+  rw [if_pos hv, if_pos hd]
+  exact dfSampling_keeps_empty E _ x T p rm (by simp [upd])
+
+/-- **converged branch**: the solved precipitate set is kept (or dropped with `removeCache`) -/
+theorem tangent_converged_leaves (s : St Ph C β σ τ π κ) (r : Res ρ β σ) (x : χ) (T : τ) (p : Ph) (rm : Bool)
+    (hv : E.valid (localEq E (ensurePrecSet E s p T r.out) (E.condMu T r.out p)
+      ((ensurePrecSet E s p T r.out).dfCache p)).1.out = true)
+    (hd : ¬ E.degenerate (localEq E (ensurePrecSet E s p T r.out) (E.condMu T r.out p)
+      ((ensurePrecSet E s p T r.out).dfCache p)).1.sets r.sets = true) :
+    (dfTangentTail E s r x T p rm).2.dfCache p =
+      if rm = true then none else some (localEq E (ensurePrecSet E s p T r.out) (E.condMu T r.out p)
+        ((ensurePrecSet E s p T r.out).dfCache p)).1.sets := by
+  unfold dfTangentTail
+  dsimp only
+  rw [if_pos hv, if_neg hd]
+  unfold resetDF
+  cases rm <;> simp [upd]
+
+/-- **unconverged branch**: early return; the (in place updated) list stays -/
+theorem tangent_unconverged_leaves (s : St Ph C β σ τ π κ) (r : Res ρ β σ) (x : χ) (T : τ) (p : Ph) (rm : Bool)
+    (hv : ¬ E.valid (localEq E (ensurePrecSet E s p T r.out) (E.condMu T r.out p)
+      ((ensurePrecSet E s p T r.out).dfCache p)).1.out = true) :
+    (dfTangentTail E s r x T p rm).2.dfCache p =
+      some (localEq E (ensurePrecSet E s p T r.out) (E.condMu T r.out p)
+        ((ensurePrecSet E s p T r.out).dfCache p)).1.sets := by
+  unfold dfTangentTail
+  dsimp only
+  rw [if_neg hv]
+  simp [upd]
 
 theorem curvInvalid_true (s : St Ph C β σ τ π κ) (p : Ph) : (curvInvalid s p true).2.curvCache p = none := by
   unfold curvInvalid
